@@ -138,7 +138,10 @@ def run(ctx: Ctx):
         for v in defs:
             if isinstance(v, ast.Call):
                 ctx.check(len(v.args) == 1 and norm(v.args[0]).endswith(".categories"), "R-C20-3", f, v,
-                          "the categorical dissimilarity is built over the input continuum's categories", key=f"cats:{dotted(v.func)}")
+                          "the categorical dissimilarity is built over the input continuum's categories",
+                          bad_detail=f"`{norm(v)}` is not built over the categories of the continuum being measured: the API result for that file "
+                                     f"(dissimilarity over ITS categories) differs, e.g. the numerical dissimilarity normalises by the label range of whatever set it is given",
+                          key=f"cats:{dotted(v.func)}")
     sv = kwarg(cg[0], "sampler")
     sdefs = assigned_value(f.node, norm(sv)) if sv is not None else []
     s_ok = False
